@@ -273,6 +273,10 @@ func main() {
 	pick("url", len(p.urls), func(i int) { runURLCase(col, i, p.urls[i]) })
 	pick("build", p.nBuild(), func(i int) { runBuildCase(col, i, p.buildCase(i)) })
 
+	relEvals := 0
+	if sel == nil {
+		relEvals = runRelSpecial(col)
+	}
 	os.Stdout, os.Stderr = realStdout, realStderr
 	nStd := compareCapture(col, "stdout", filepath.Join(workRoot, "stdout.cap"), expOut)
 	nStd += compareCapture(col, "stderr", filepath.Join(workRoot, "stderr.cap"), expErr)
@@ -329,7 +333,7 @@ func main() {
 			nBuildNontrivial += p.nVariants
 		}
 	}
-	evals := len(p.openCases) + p.nBuild() + stdEvals + len(p.urls) + regEvals
+	evals := len(p.openCases) + p.nBuild() + stdEvals + len(p.urls) + regEvals + relEvals
 	distinct := nOpenNontrivial + nBuildNontrivial + len(stdDistinct) + len(p.urls)
 	if len(regs) > 0 {
 		distinct += regs[0].SinkNames + regs[0].EncoderSeqs
